@@ -81,7 +81,38 @@ func readResponse(c net.Conn, d time.Duration) (*wire.ParsedResp, []byte, error)
 	}
 }
 
+// overloaded: every verdict of a scenario involves wall-clock ordering (release 60 ms after the hook
+// against a 150 ms wait, "returns within wait + 2 s"). A heartbeat measures how late 1 ms sleeps wake
+// up while the scenario runs; when the worst lateness exceeds this, the machine was too loaded for a
+// verdict and the scenario counts as inconclusive (skipped, classified), never as a violation.
+const overloaded = 100 * time.Millisecond
+
 func runPlan(p *Plan) (msg string, log []string) {
+	var maxLate int64
+	stopBeat := make(chan struct{})
+	go func() {
+		for {
+			select {
+			case <-stopBeat:
+				return
+			default:
+			}
+			t0 := time.Now()
+			time.Sleep(time.Millisecond)
+			if late := int64(time.Since(t0) - time.Millisecond); late > atomic.LoadInt64(&maxLate) {
+				atomic.StoreInt64(&maxLate, late)
+			}
+		}
+	}()
+	msg, log = runPlanInner(p)
+	close(stopBeat)
+	if late := time.Duration(atomic.LoadInt64(&maxLate)); msg != "" && !strings.HasPrefix(msg, "harness:") && late > overloaded {
+		msg = fmt.Sprintf("harness: overloaded (a 1 ms sleep woke up %v late), verdict dropped: %s", late, msg)
+	}
+	return msg, log
+}
+
+func runPlanInner(p *Plan) (msg string, log []string) {
 	var lmu sync.Mutex
 	t00 := time.Now()
 	logf := func(f string, a ...interface{}) {
@@ -316,6 +347,11 @@ func runPlan(p *Plan) (msg string, log []string) {
 		case <-time.After(wait + 6*time.Second):
 			return fmt.Sprintf("connection %d: no response to an in-flight request (handler released %s)", i, cp.Release), log
 		}
+		if done := atomic.LoadInt64(&handlerDone[i]); (r.err != nil || r.pr == nil) && (done == 0 || done > t0.Add(wait-30*time.Millisecond).UnixNano()) {
+			// the handler returned only at (or after) the end of the wait: the bounded wait may cut it off
+			logf("connection %d: handler returned too close to the deadline for a verdict on its response", i)
+			continue
+		}
 		if r.err != nil || r.pr == nil {
 			return fmt.Sprintf("connection %d: the request was in its handler when Shutdown was called (released %s) but the response is incomplete: err=%v, %d bytes received: %.120q", i, cp.Release, r.err, len(r.raw), r.raw), log
 		}
@@ -407,6 +443,9 @@ func scenarios(t *testing.T, transport, unit string) {
 		nt, cls := classify(p)
 		rec.Case(nt, ev.HashString(fmt.Sprintf("%+v", *p)), cls...)
 		msg, log := runPlan(p)
+		if strings.HasPrefix(msg, "harness: overloaded") {
+			rec.Class("verdict-dropped-machine-overloaded", 1)
+		}
 		if strings.HasPrefix(msg, "harness:") {
 			t.Skip(msg)
 		}
